@@ -19,6 +19,7 @@ ap.add_argument("--tier", default="quick")
 ap.add_argument("--skip-confirm", action="store_true")
 ap.add_argument("--root", default="/tmp/seed", help="directory holding the agents' scratch worktrees")
 ap.add_argument("--store-as", default=None, help="letter under which the seed is stored (default: same as 'which')")
+ap.add_argument("--no-check", action="store_true", help="confirm and store only (the check is run elsewhere)")
 a = ap.parse_args()
 
 wt = f"{a.root}/{a.prop}"
@@ -59,6 +60,10 @@ if not a.skip_confirm:
 
 meta = json.load(open(f"{dst}/meta.json"))
 meta.setdefault("confirmed", {}).update(ran)
+if a.no_check:
+    json.dump(meta, open(f"{dst}/meta.json", "w"), indent=1)
+    print("stored", sid)
+    sys.exit(0)
 checks = (a.checks or a.prop).split(",")
 rc, out = sh("git status --porcelain -- src", cwd="/repo")
 assert out.strip() == "", "/repo has uncommitted changes: " + out
